@@ -59,10 +59,10 @@ def shards(tier, seed):
         mine = devs[i::ns]
         if tier == "quick":
             k = (seed + i) % len(mine)
-            mine = (mine[k:] + mine[:k])[:1]
-            ncases, nmax, ndiff = 36, 700, 1
+            mine = (mine[k:] + mine[:k])[:2]
+            ncases, nmax, ndiff = 40, 700, 1
         else:
-            ncases, nmax, ndiff = 200, 2600, 2
+            ncases, nmax, ndiff = 300, 4000, 2
         out.append(dict(tier=tier, seed=seed * 1000 + i, idx=i, devs=mine, ncases=ncases, nmax=nmax, ndiff=ndiff))
     return out
 
